@@ -559,13 +559,7 @@ pub fn check_case(ctx: &mut Ctx, case: &Case, cfg: &Cfg, props: &[String], want_
                         // (the four portability directives are exempt: whether such a word at the end of a declaration is the
                         // directive or a name is a heuristic in pasfmt, and the unchanged tree already lower-cases some names)
                         let portability = |w: &str| matches!(w.to_ascii_lowercase().as_str(), "library");
-                        // (nor is a name next to a comment: the parser decides by the neighbouring token, and a comment there
-                        // already changes the decision on the unchanged tree for words like `Stored`)
-                        let next_to_comment = |t: &Tok| {
-                            let k = tin.iter().position(|x| x.start == t.start).unwrap_or(0);
-                            (k > 0 && (tin[k - 1].is_comment() || tin[k - 1].is_directive())) || tin.get(k + 1).is_some_and(|x| x.is_comment() || x.is_directive())
-                        };
-                        if o < pin.len() && pin[o].text(text) != pout[o].text(&out) && !portability(pin[o].text(text)) && !next_to_comment(pin[o]) {
+                        if o < pin.len() && pin[o].text(text) != pout[o].text(&out) && !portability(pin[o].text(text)) {
                             // where the name stands (for the words platform / deprecated / experimental the unchanged tree
                             // takes the name for the directive in four places: see known finding F18)
                             let word = pin[o].text(text).to_ascii_lowercase();
